@@ -119,3 +119,98 @@ func singleReturn(fn *ssa.Function) ssa.Value {
 	}
 	return rv
 }
+
+// callPaths enumerates the paths of a loop-free function from entry to its
+// returns as call sequences (deferred calls of a path run at its end, last
+// pushed first). nil: the function has a loop or more than 32 paths.
+func callPaths(fn *ssa.Function) [][]ssa.CallInstruction {
+	var out [][]ssa.CallInstruction
+	onPath := map[*ssa.BasicBlock]bool{}
+	ok := true
+	var walk func(b *ssa.BasicBlock, calls, deferred []ssa.CallInstruction)
+	walk = func(b *ssa.BasicBlock, calls, deferred []ssa.CallInstruction) {
+		if !ok {
+			return
+		}
+		if onPath[b] {
+			ok = false
+			return
+		}
+		onPath[b] = true
+		defer func() { onPath[b] = false }()
+		calls = append([]ssa.CallInstruction(nil), calls...)
+		deferred = append([]ssa.CallInstruction(nil), deferred...)
+		for _, ins := range b.Instrs {
+			if d, isD := ins.(*ssa.Defer); isD {
+				deferred = append(deferred, d)
+				continue
+			}
+			if ci, isC := ins.(ssa.CallInstruction); isC {
+				calls = append(calls, ci)
+			}
+		}
+		if len(b.Succs) == 0 {
+			if _, isRet := b.Instrs[len(b.Instrs)-1].(*ssa.Return); isRet {
+				for i := len(deferred) - 1; i >= 0; i-- {
+					calls = append(calls, deferred[i])
+				}
+				out = append(out, calls)
+				if len(out) > 32 {
+					ok = false
+				}
+			}
+			// a path ending in panic delivers nothing
+			return
+		}
+		for _, s := range b.Succs {
+			walk(s, calls, deferred)
+		}
+	}
+	walk(fn.Blocks[0], nil, nil)
+	if !ok {
+		return nil
+	}
+	return out
+}
+
+// flattenPaths is flatten for a loop-free root: one flat view per path of
+// the root; callees are inlined only when straight-line.
+func flattenPaths(fn *ssa.Function, inline func(callee *ssa.Function) bool) []*flat {
+	paths := callPaths(fn)
+	if paths == nil {
+		return nil
+	}
+	var out []*flat
+	for _, p := range paths {
+		f := &flat{index: map[ssa.CallInstruction]int{}, alias: map[ssa.Value]ssa.Value{}, straight: true}
+		var add func(calls []ssa.CallInstruction, depth int)
+		add = func(calls []ssa.CallInstruction, depth int) {
+			for _, ci := range calls {
+				callee := ci.Common().StaticCallee()
+				if callee != nil && callee.Blocks != nil && depth < 4 && callee != fn && inline(callee) {
+					if cc, st := callsInOrder(callee); st {
+						cargs := ci.Common().Args
+						for i, pa := range callee.Params {
+							if i < len(cargs) {
+								f.alias[pa] = cargs[i]
+							}
+						}
+						f.inlined = append(f.inlined, callee)
+						add(cc, depth+1)
+						if v := ci.Value(); v != nil {
+							if rv := singleReturn(callee); rv != nil {
+								f.alias[v] = rv
+							}
+						}
+						continue
+					}
+				}
+				f.index[ci] = len(f.calls)
+				f.calls = append(f.calls, ci)
+			}
+		}
+		add(p, 0)
+		out = append(out, f)
+	}
+	return out
+}
